@@ -13,6 +13,7 @@ import (
 	"runtime"
 	"strconv"
 	"sync"
+	"sync/atomic"
 	"syscall"
 	"time"
 
@@ -36,6 +37,10 @@ func init() {
 		return hostileOne(prop, nil, p, rp["le"].(bool), w)
 	}
 }
+
+const caseDeadline = 90 * time.Second
+
+var stopAll atomic.Bool
 
 const (
 	allocConst  = 4096
@@ -421,12 +426,13 @@ func superviseDecode(r *ev.Run, prop string, thorough bool) {
 		wg.Add(1)
 		go func(id int) {
 			defer wg.Done()
+			runtime.LockOSThread() // Pdeathsig is tied to the creating thread: keep it alive as long as the child
 			jpath := filepath.Join(dir, fmt.Sprintf("j%d", id))
 			start := int64(0)
 			for attempt := 0; attempt < 50; attempt++ {
 				os.Remove(jpath)
 				cmd := exec.Command(exe, "worker", "decode", prop, tier, strconv.Itoa(id), strconv.Itoa(n), jpath, strconv.FormatInt(start, 10))
-				cmd.Stderr = nil
+				cmd.SysProcAttr = &syscall.SysProcAttr{Pdeathsig: syscall.SIGKILL}
 				stdout, _ := cmd.StdoutPipe()
 				var stderr bytes.Buffer
 				cmd.Stderr = &stderr
@@ -434,8 +440,40 @@ func superviseDecode(r *ev.Run, prop string, thorough bool) {
 					fmt.Fprintln(os.Stderr, "worker start:", err)
 					os.Exit(2)
 				}
-				// hang guard: a batch that takes milliseconds gets minutes (>1000x margin); never a fine-grained oracle
-				timer := time.AfterFunc(20*time.Minute, func() { cmd.Process.Kill() })
+				// hang guard: a case that normally takes microseconds is given caseDeadline (a >10^6x margin) before the
+				// worker is killed and the journalled case recorded as a hang; never a fine-grained oracle
+				var hung atomic.Bool
+				stopWatch := make(chan struct{})
+				go func() {
+					last, since := uint64(0), time.Now()
+					tk := time.NewTicker(time.Second)
+					defer tk.Stop()
+					for {
+						select {
+						case <-stopWatch:
+							return
+						case <-tk.C:
+						}
+						if stopAll.Load() {
+							cmd.Process.Kill()
+							return
+						}
+						jb, err := os.ReadFile(jpath)
+						if err != nil || len(jb) < 8 {
+							continue
+						}
+						cur := binary.LittleEndian.Uint64(jb)
+						if cur != last || cur == 0 {
+							last, since = cur, time.Now()
+							continue
+						}
+						if time.Since(since) > caseDeadline {
+							hung.Store(true)
+							cmd.Process.Kill()
+							return
+						}
+					}
+				}()
 				done := false
 				sc := bufio.NewScanner(stdout)
 				sc.Buffer(make([]byte, 1<<20), 64<<20)
@@ -458,8 +496,11 @@ func superviseDecode(r *ev.Run, prop string, thorough bool) {
 					}
 				}
 				err := cmd.Wait()
-				timer.Stop()
+				close(stopWatch)
 				if done && err == nil {
+					return
+				}
+				if stopAll.Load() {
 					return
 				}
 				// the worker died: attribute it to the journalled case
@@ -476,6 +517,14 @@ func superviseDecode(r *ev.Run, prop string, thorough bool) {
 				mu.Unlock()
 				reason := tailStr(firstLine(stderr.String()), 300)
 				v := &ev.Violation{Kind: "process-died", Subject: who, Detail: fmt.Sprintf("decoding %s killed the process under an %d GiB address-space limit: %s", hx(w), addrLimit>>30, reason)}
+				if hung.Load() {
+					v = &ev.Violation{Kind: "decode-hang", Subject: who, Detail: fmt.Sprintf("decoding the %d bytes %s did not return within %v (other cases take microseconds)", len(w), hx(w), caseDeadline)}
+				}
+				mu.Lock()
+				if deaths >= 6 {
+					stopAll.Store(true) // enough evidence: stop exploring, report what was found (exhaustive=false)
+				}
+				mu.Unlock()
 				if who[0] == 'T' {
 					v.Subject = who[2:]
 					v.Replay = map[string]any{"op": "wire", "type": who[2:], "wire": hex.EncodeToString(w), "note": "replay in a process with RLIMIT_AS set (bin/vcheck replay does this)"}
@@ -492,6 +541,9 @@ func superviseDecode(r *ev.Run, prop string, thorough bool) {
 		}(id)
 	}
 	wg.Wait()
+	if stopAll.Load() {
+		r.Cap("exploration stopped early after 7 worker deaths/hangs (violations reported)")
+	}
 	r.Set("worker_processes", n)
 	r.Set("worker_deaths", deaths)
 	r.Set("address_space_limit_bytes", addrLimit)
